@@ -24,6 +24,14 @@ def base_dataset(kind, rng, side):
     rows, cols = shapes[kind]
     nb = 1 if kind % 2 == 0 else 3
     data = rng.randint(0, 9, size=(nb, rows, cols)).astype(np.float32)
+    # an image may hold NaN samples (only an ENTIRELY NaN image is refused): one NaN band, one NaN pixel, a few NaN pixels
+    if kind == 1:
+        data[2] = np.nan
+    elif kind == 2:
+        data[0, rng.randint(rows), rng.randint(cols)] = np.nan
+    elif kind == 5:
+        data[rng.rand(nb, rows, cols) < 0.3] = np.nan
+        data[0, 0, 0] = 1.0
     data = data[0] if nb == 1 else data
     disp = None
     if side == "L" or kind in (2, 3):
